@@ -61,6 +61,8 @@ def run(ctx):
     ctx.floor('R15', 'concrete distributions', len(dists), 19)
     # first: what a distribution declares must be a function of its own parameters -- a memo, table or helper object shared by all objects of
     # the class answers for whichever object filled it first (shared rule with C14)
+    from ..statrules import memo_soundness
+    memo_soundness(ctx, 'R15.9', ['distributions', 'utils'])
     from ..statrules import shared_class_state
     shared_class_state(ctx, 'R15.8', sorted(c for c, ci in prog.classes.items() if ci.module.name == 'distributions'),
                        'the densities / probabilities one distribution declares are those another one computed: they no longer match its own parameters and draws')
